@@ -69,6 +69,8 @@ pub fn run() {
     c!("O_MAX_SEGMENTS", P::segment_status_table::MAX_SEGMENTS);
     c!("O_MAX_SEGMENT_SIZE", P::segment_status_table::MAX_SEGMENT_SIZE);
     c!("O_DATA_WRITTEN", P::segment_status_table::DATA_WRITTEN);
+    c!("O_DATA_NOT_WRITTEN", P::segment_status_table::DATA_NOT_WRITTEN);
+    c!("O_WRITTEN_SIZE", original_flash_algo::manager::WRITTEN_SIZE);
     let oinv = if P::SequenceNumber::take_from_bytes(&[0xFF; 4]).is_none() { 0xFFFF_FFFFu64 } else { 1u64 << 32 };
     c!("O_SEQ_INVALID", oinv);
     for (n, x) in v {
